@@ -306,7 +306,7 @@ def update(
                 old[k],
                 v,
                 priority=priority,
-                defaults=defaults.get(k) if defaults else None,
+                defaults=defaults.get(canonical_name(k, defaults)) if defaults else None,
             )
         else:
             if (
@@ -315,8 +315,8 @@ def update(
                 or (
                     priority == "new-defaults"
                     and defaults
-                    and k in defaults
-                    and defaults[k] == old[k]
+                    and canonical_name(k, defaults) in defaults
+                    and defaults[canonical_name(k, defaults)] == old[k]
                 )
             ):
                 old[k] = v
